@@ -51,6 +51,9 @@ type Cfg struct {
 	// Map: resbadger models are served through a Map callback that wraps the value
 	// ({"wrapped": v}); Value() must still give the stored value.
 	Map bool `json:"map,omitempty"`
+	// ParallelColl: the collection handler is registered with Parallel(true): its callbacks,
+	// and so the events they emit on one collection, run concurrently.
+	ParallelColl bool `json:"parallelColl,omitempty"`
 }
 
 func (st Step) unencodable() bool {
@@ -188,12 +191,13 @@ func (f *fixture) open() error {
 		}
 		mopt, copt = m, c
 	}
+	par := res.Parallel(f.cfg.ParallelColl)
 	if f.cfg.Pkg == "middleware" {
 		s.Handle("m.$id", res.Model, mopt)
-		s.Handle("c.$id", res.Collection, copt)
+		s.Handle("c.$id", res.Collection, copt, par)
 	} else {
 		s.Handle("m.$id", mopt)
-		s.Handle("c.$id", copt)
+		s.Handle("c.$id", copt, par)
 	}
 	s.AddListener("m.$id", func(e *res.Event) {
 		if f.quiet {
@@ -336,12 +340,17 @@ func run(c Case) (msg string, nontrivial bool) {
 			}
 			return ""
 		}
-		if valueErr != nil {
+		if valueErr != nil && !(strings.HasPrefix(rid, "svc.m.") && c.Cfg.Typed) {
 			return fmt.Sprintf("%s: Value() failed: %v (fold %s)", where, valueErr, eff)
 		}
 		if strings.HasPrefix(rid, "svc.m.") && c.Cfg.Typed {
 			var t T
-			_ = json.Unmarshal([]byte(eff), &t)
+			if json.Unmarshal([]byte(eff), &t) != nil {
+				return "" // what is stored does not fit the configured type: Value() is not specified
+			}
+			if valueErr != nil {
+				return fmt.Sprintf("%s: Value() failed: %v (fold %s)", where, valueErr, eff)
+			}
 			if !reflect.DeepEqual(value, t) {
 				return fmt.Sprintf("%s: Value()=%#v, the fold decoded into the configured type is %#v", where, value, t)
 			}
@@ -633,7 +642,14 @@ func run(c Case) (msg string, nontrivial bool) {
 				return fmt.Sprintf("%s: delete listeners ran %d times", where, len(f.deletes)-ndel), nontrivial
 			}
 			data := f.deletes[ndel]
-			if isModel && c.Cfg.Typed {
+			var t T
+			if isModel && c.Cfg.Typed && json.Unmarshal([]byte(cur), &t) != nil {
+				// the stored value does not fit the configured type: the listeners get it as it
+				// was stored
+				if !jsonEq(canon(data), cur) {
+					return fmt.Sprintf("%s: delete listeners got %s, the previous stored value is %s", where, canon(data), cur), nontrivial
+				}
+			} else if isModel && c.Cfg.Typed {
 				var t T
 				_ = json.Unmarshal([]byte(cur), &t)
 				if !reflect.DeepEqual(data, t) {
@@ -722,9 +738,11 @@ func genCase() *rapid.Generator[Case] {
 					case !c.Cfg.Typed && rapid.IntRange(0, 2).Draw(t, "mixed") == 0:
 						// the same text as a number, a boolean and a string are different values
 						st.Vals[key] = rapid.SampledFrom([]string{`1`, `"1"`, `true`, `"true"`, `0.5`, `"0.5"`, `2`, `"2"`, `false`, `"false"`}).Draw(t, "mixedv")
-					case c.Cfg.Typed && c.Cfg.Indexes > 0 && rapid.IntRange(0, 5).Draw(t, "badtype") == 0:
+					case c.Cfg.Typed && !c.Cfg.Map && (c.Cfg.Indexes > 0 || key == "n") && rapid.IntRange(0, 5).Draw(t, "badtype") == 0:
 						// a value the configured struct type cannot hold: with an index set the
-						// change cannot be applied (the indexed value cannot be decoded)
+						// change cannot be applied (the indexed value cannot be decoded); without
+						// one it is stored like any other value, and what is stored then no longer
+						// decodes into the type
 						if key == "n" {
 							st.Vals[key] = `"not a number"`
 						} else {
